@@ -6,4 +6,4 @@ import "unsafe"
 
 const verifOn = false
 
-func verifRawCopy(a *archetype, dst unsafe.Pointer, size uint32) {}
+func verifRawCopy(a *archetype, src, dst unsafe.Pointer, size uint32) {}
